@@ -3,11 +3,13 @@
    Base/ZpOps.v.  Directives: ExtrOcamlBasic only. *)
 From Coq Require Extraction ExtrOcamlBasic.
 From VBase Require Import FieldOps ZpOps.
-From VModel Require Import Stark.
+From VModel Require Import Stark StarkLagrange PolynomExt.
+From VModel Require EnforceLagrange.
 Extraction Language OCaml.
 Separate Extraction
   Shape.options_ok Shape.fri_options_ok Shape.trace_info_ok Shape.degree_ok Shape.eval_degree Shape.min_blowup
   Shape.ctx_model Shape.num_comp_cols Shape.num_comp_cols_snapshot Shape.num_fri_layers Shape.fri_wellformed
   Shape.admissible
   zp_ops P64 P62 P128 fmul
-  peval evals segment degree_of deep_poly v_deep ood_lhs.
+  peval evals segment degree_of deep_poly v_deep ood_lhs
+  quad64_ops quad62_ops padd deep_trace deep_lag v_trace_lag lag_pts lag_frame interp_pts_c20 lag_eval EnforceLagrange.lag_new.
